@@ -65,7 +65,8 @@ def load_corpus(prop):
 
 
 def run_impl(hexe, cmds):
-    outs, rc, err = run_script(hexe, cmds)
+    # one history: milliseconds; an implementation that loops is cut off (rc -9, the outputs so far are kept)
+    outs, rc, err = run_script(hexe, cmds, timeout=15)
     return outs, rc, err
 
 
